@@ -29,7 +29,9 @@ for p in props:
             "level_claimed": {"category": "proof", "text": c["text"], "design_ref": "DESIGN.md section 6, %s" % pid},
             "level_note": c["note"],
             "technique": c["technique"]})
+    elif pid in NOT_APPLICABLE:
+        m["not_applicable"].append({"property_id": pid, "reason": NOT_APPLICABLE[pid]})
     else:
-        m["not_applicable"].append({"property_id": pid, "reason": NOT_APPLICABLE.get(pid, "theorem file not yet committed in this session; the property's oracle and correspondence exist (harness/props) but it is not claimed until Props/%s.v is in place" % pid)})
+        raise SystemExit("manifest_data.py has neither a CHECKS entry nor a NOT_APPLICABLE reason for %s" % pid)
 json.dump(m, open('/verif/MANIFEST.json', 'w'), indent=1)
 print("claimed:", sorted(CHECKS))
